@@ -119,7 +119,7 @@ theorem C01_roundtrip_single_block (T : Tables) (hE : escOK T = true) (hK : kvOK
     simp [parseToks, step, stepTop, kEof, kBraceOpen, kNewline, kString, kPropFlag,
       keyOk_step ht.1, addKid]
     rw [parse_list po fold cs ht.2 3 ⟨.named n, []⟩ [⟨.root, []⟩] (Or.inr (by simp)) false]
-    simp [parseToks, step, stepTop, kEof, kBraceOpen, kNewline, kString, kBraceClose, hsb]
+    simp [parseToks, step, stepTop, closeInto, kEof, kBraceOpen, kNewline, kString, kBraceClose, hsb]
 
 /-- `Keyvalues.parse(chunks)` for an iterable of string chunks (a list, a generator, a file object
 read line by line): the tokenizer runs over the chunk cursor of the concrete model `TokC`. -/
@@ -166,6 +166,18 @@ theorem C01_roundtrip_root_current (fold : Char → List Char) (so : SerOpts) (h
     parse Gen.Tok.tables {} fold (serialiseRoot Gen.Tok.tables Gen.Kvser.cfg so ts) = .root ts := by
   rw [C01_gen_cfg]
   exact C01_roundtrip_root _ C02_gen_ok C01_gen_tables {} rfl rfl fold so hind ts ht
+
+/-- **The parser model is total in the implementation's sense**: for every text, every option set
+and flag environment, `parse` never ends in one of the model's `internal` results (the states the
+code cannot be in: an empty block stack, a pending block opening whose keyvalue is not the last
+child, a token stream that stops without EOF or error).  Proved by an invariant of the machine
+(`invB`) preserved by every step. -/
+theorem C01_parse_no_internal (T : Tables) (po : ParseOpts) (fold : Char → List Char)
+    (text : List Char) (l : Option Nat) : parse T po fold text ≠ .err .internal l := by
+  intro h
+  have := parse_ok T po fold text
+  rw [h] at this
+  simp [okRes] at this
 
 /-- the error of a parse result, if it is one (decidable observation of `PResult`) -/
 def errOf : PResult → Option (PErr × Option Nat)
